@@ -350,8 +350,14 @@ def meta(tier):
                               oc.OrderingCone.is_inside),
         "bounds": {"m": "2..3", "K": "<=6", "cones": [c for c, _ in cone_set(tier)] + ["fully symbolic 2x2 cone matrix (rectangles)"],
                    "regions": "all rectangles lower<=upper (degenerate edges included), all real slacks"},
+        "stubs": ["ellipsoids: cvxpy exact-optimum stub (per facet: attainment witness + lower-bound fact instantiated at the "
+                  "oracle's points, both variable orders)", "scipy.linalg.sqrtm / np.linalg.inv through Σ = T^-2 with T symmetric "
+                  "positive definite"],
         "assumptions": ["floats are encoded as exact reals (binary64 rounding outside the claim)",
-                        "cone matrices are the exact rationals of the floats VOPy's constructors return"],
+                        "cone matrices are the exact rationals of the floats VOPy's constructors return",
+                        "ellipsoids: radii > 0; exact solver statuses; *_inaccurate and the SCS fallback outside; replay "
+                        "oracle = closed-form support function with a 1e-6 relative boundary band"],
+        "outside": ["ill-conditioned Σ (condition number > 1e8) in replays", "m > 3"],
         "explanation": "symbolic execution of the real is_dominated code over symbolic regions; per "
                        "feasible path the returned boolean is proved equal to the closed-form "
                        "specification and (for True) to the ∀∀ statement itself",
